@@ -133,6 +133,7 @@ class TapeProp(object):
                     fd = self.gen_fd(rng, unique)
                     fd["gap"] = rng.choice([0x00, 0x00, 0xFF])
                     long_silence = [v + d for v in (4096, 5000, 8192, 10000, 16384, 32768, 65536) for d in (-1, 0, 1)]
+                    long_silence += [rng.randint(3000, 70000) for _ in range(len(long_silence))]     # and any length, not only round ones
                     ops.append({"op": "peer_record", "file": fd,
                                 "leader": rng.choice([1, 2, 16, 128, 128, 256, rng.randint(1, 600)] + ([rng.choice(long_silence)] if rng.chance(0.15) else [])),
                                 "blank": rng.choice([0, 0, 1, 128, rng.randint(0, 256)] + ([rng.choice(long_silence)] if rng.chance(0.15) else [])),
